@@ -156,7 +156,7 @@ func Run(tier string) {
 	run.Assume("perfect AEAD: a block opens iff it is exactly a frame sealed under the same key, counter and flag (x/crypto chacha20poly1305 is trusted)")
 	seed := run.Seed
 	// 1. the design: exhaustive model checking of the reader machine
-	run.SpecMustHold("reader-mc", vk.TLCOpts{Module: "StreamMC", Config: mcCfg(2, 1, run.Pick(5, 7), "{0, 1, 2, 3}", false), Workers: 16})
+	run.SpecMustHold("reader-mc", vk.TLCOpts{Module: "StreamMC", Config: mcCfg(2, 1, run.Pick(5, 7), "{0, 1, 2, 3}", false), Workers: 16, Expect: []string{"RCall", "RFill", "RProbe"}})
 	if run.Thorough() {
 		run.SpecMustHold("reader-mc-C3", vk.TLCOpts{Module: "StreamMC", Config: mcCfg(3, 2, 10, "{0, 1, 3, 4}", false), Workers: 16})
 	}
